@@ -18,7 +18,7 @@ from core import enc_str
 PROPERTY = "C14"
 
 # CODE VARIANT FLAGS — which variant of the code the model is compared with.
-# 1 = rich 9.10.0 as found, 0 = repaired (see /verif/pending_fixes/C14-*.diff).
+# 1 = rich 9.10.0 as found, 0 = repaired = what /repo contains now (fix c34676b = pending_fixes/C14-color-parse-rgb-valueerror.diff).
 RGB_VALUEERROR = 0  # F9: Color.parse("rgb(1,,2)") lets int()'s ValueError escape (Model/Totality.lean `vErr`)
 
 DOCUMENTED = {"ColorParseError", "StyleSyntaxError", "MarkupError", "MissingStyle"}
@@ -478,24 +478,28 @@ MANIFEST = {
     "the int() digit limit enter as the parameter PyStr): color_parse_total (ok or ColorParseError), style_parse_total (ok or "
     "StyleSyntaxError), normalize_total (never raises), markup_render_total (ok or MarkupError; the render loop is C04's with a "
     "normalize that may raise, proved equal to C04's render when it does not), get_style_total (ok or MissingStyle, any theme "
-    "stack, any default), panel_total (valid padding => Panel renders and measures); old_* witnesses (by decide) show today's "
-    "Color.parse letting int()'s ValueError out of every one of these entry points (F9) and C07's table solver failing its "
-    "assertion for a table without columns and for a zero-ratio column at a width spent on the borders. "
-    "Tie: ~125k (quick) / ~2.5M (thorough) generated strings compared model-vs-rich on outcome class AND value (colour fields, "
+    "stack, any default), panel_total (valid padding => Panel renders and measures); old_* witnesses (by decide) show the Color.parse of "
+    "rich 9.10.0 as found (before fix c34676b) letting int()'s ValueError out of every one of these entry points (F9) and C07's table solver "
+    "as found (before fixes 1d61bac, ab98098) failing its assertion for a table without columns and for a zero-ratio column at a width spent "
+    "on the borders. "
+    "Tie: ~160k (quick; evidence/C14.json: 158,408 compared) / ~2.5M (thorough) generated strings compared model-vs-rich on outcome class AND value (colour fields, "
     "str(style), normal form, plain text + spans), the driver's Unicode tables compared with the running interpreter; direct "
     "evaluation of the exception class at Color.parse, Style.parse, Style.normalize, markup.render, Console.get_style, "
     "AnsiDecoder.decode, Text(), Console.print(markup on/off, widths 1..200, highlighter on/off) and of Console.render / "
     "Measurement.get / Console.print over seeded random trees of 15 kinds of built-in renderables x widths 1..200.",
     "note": "PARTIAL: the ANSI decoder, Text(), Console.print(markup=False) and the renderable trees are covered by direct "
-    "evaluation on real rich only (no theorem in this property): decode_total is expected from C19's model (Model/Ansi.lean, "
-    "Cfg.intRaises=false: forall st s, (decode cfg st s).2 is ok, from tablesOk), text_ctor_total / print_plain_total from C05/C02 "
-    "(inv_init, render_view, a wrap_total still missing) - Model/Text.lean and Model/ColorParse.lean both declare RichModel.Variant "
-    "and cannot be imported together; layout_total over an inductive tree of renderables is the composition builder's (C01/C09); "
-    "Columns is Props/C08 columns_repaired_never_raises. Direct evaluation only sees mutations that raise (or mis-measure). "
+    "evaluation on real rich only (no theorem in this property).  Totality theorems that exist in other properties' files: the decoder is "
+    "C19.decode_total (Model/Ansi.lean, Cfg.intRaises=false: the decoder answers for every string); the table solver is "
+    "C07.calc_widths_total / table_render_total / rich_measure_total (Flags with noColumnsAsserts = flexNegative = false); Columns is "
+    "C08.columns_repaired_never_raises.  Still without a theorem anywhere: text_ctor_total / print_plain_total (C05's inv_init and "
+    "render_view are the ingredients, a wrap_total is missing; Model/Text.lean and Model/ColorParse.lean both declare RichModel.Variant "
+    "and cannot be imported together) and a layout_total over the inductive tree of renderables (C01/C09 state width and measurement "
+    "bounds on Model/Layout.lean, not the absence of exceptions).  Direct evaluation only sees mutations that raise (or mis-measure). "
     "Trusted: Lean kernel; propext/Classical.choice/Quot.sound; translator + plug-in harness/gen/py_lower.py (str.lower table; "
     "strings containing GREEK CAPITAL SIGMA are unmodelled: final-sigma rule); the correspondence harness; lru_cache on the parsers "
-    "assumed transparent; lone surrogates excluded. With today's code the check reports F9 (rgb-component-valueerror), F10 "
-    "(ansi-sgr-int-valueerror) and two new table findings (table-no-columns-assertion, table-zero-ratio-narrow-assertion) until "
-    "pending_fixes/C14-*.diff and C19-decode-int-valueerror.diff are applied and RGB_VALUEERROR is set to 0.",
+    "assumed transparent; lone surrogates excluded. On rich 9.10.0 as found the check reported F9 (rgb-component-valueerror), F10 "
+    "(ansi-sgr-int-valueerror), F11 (Columns ZeroDivisionError) and two new table findings (table-no-columns-assertion, "
+    "table-zero-ratio-narrow-assertion); all are repaired in /repo (fixes c34676b, 8dc20cb, f7ecf83, 1d61bac, ab98098), RGB_VALUEERROR "
+    "holds the repaired value 0 and the check exits 0 with no finding.",
     "design_ref": "DESIGN.md section 7, C14",
 }
